@@ -13,7 +13,7 @@ for name in sorted(os.listdir("translate")) if os.path.isdir("translate") else [
         print(name, "rc=%d" % rc, out[-500:])
 vlib.regen_coqproject()
 PY
-(cd coq && timeout 7000 make -j16 2>&1 | tail -30)
+(cd coq && timeout 7000 make -k -j16 2>&1 | tail -30) || echo "WARNING: some Coq files did not build"
 cp /repo/Cargo.lock harness/Cargo.lock
 (cd harness && CARGO_TARGET_DIR=../.cache/target RUSTFLAGS="--cfg statime_verif" cargo build --offline 2>&1 | tail -5)
 (cd harness && CARGO_TARGET_DIR=../.cache/target RUSTFLAGS="--cfg statime_verif" cargo build --offline --release 2>&1 | tail -5)
